@@ -25,7 +25,16 @@ class Worker(object):
         if launch == 'script':
             cmd = [sys.executable, wp]
         else:
-            cmd = [sys.executable, '-c', 'import runpy; runpy.run_path(%r, run_name="__main__")' % wp]
+            # like an interactive / -c session (sys.path[0] == ''), and its __main__ is a SHIFTED COPY of the worker source:
+            # other path, other line numbers - incidental properties of the main script that keys must not depend on
+            shifted = os.path.join(VERIF, '.work', 'worker_shifted_%d.py' % os.getpid())
+            os.makedirs(os.path.dirname(shifted), exist_ok=True)
+            with open(wp) as f:
+                src = f.read()
+            with open(shifted, 'w') as f:
+                f.write('# shifted copy\n' * 7 + src)
+            self._shifted = shifted
+            cmd = [sys.executable, '-c', 'import runpy; runpy.run_path(%r, run_name="__main__")' % shifted]
         self.desc = dict(hashseed=str(hashseed), bytecode=bytecode, launch=launch)
         self.p = subprocess.Popen(cmd, stdin=subprocess.PIPE, stdout=subprocess.PIPE, stderr=subprocess.DEVNULL, env=env, cwd=cwd or '/',
                                   universal_newlines=True, bufsize=1)
@@ -62,6 +71,12 @@ class Worker(object):
             self.kill()
 
     def kill(self):
+        sh = getattr(self, '_shifted', None)
+        if sh:
+            try:
+                os.remove(sh)
+            except OSError:
+                pass
         if self.p.poll() is None:
             self.p.kill()
             try:
